@@ -238,7 +238,7 @@ func cOrig(m map[string]string) string {
 	return cList(items)
 }
 
-var vRcpts10 = []string{"a@example.org", "b@example.org", "\"quoted local\"@example.org", "d@тест.example", "юзер@example.org", "e@xn--e1aybc.example"}
+var vRcpts10 = []string{"a@example.org", "A@example.org", "b@example.org", "b@EXAMPLE.org", "\"quoted local\"@example.org", "d@тест.example", "юзер@example.org", "e@xn--e1aybc.example"}
 var vFroms10 = []string{"sender@example.org", "", "s@тест.example", "\"odd sender\"@example.org"}
 
 func TestVerif_C10(t *testing.T) {
